@@ -298,6 +298,12 @@ FIXED = [
     {"op": "window_toc", "scripts": [[["N", 1], ["N", 2], ["N", 3], ["C"]], [["T"]]], "params": {"count": 2}},
     {"op": "window_toc", "scripts": [[["N", 1], ["N", 2], ["N", 3]], [["T"], ["T"]]], "params": {"count": 2}},
     {"op": "window_count", "scripts": [[["N", 1], ["N", 2], ["N", 3], ["C"]]], "params": {"count": 2, "skip": 1}},
+]
+# subscription on its own thread, racing the operator's timer thread (calls made from subscribe() itself)
+FIXED_SUB = [
+    {"op": "window_time", "scripts": [[["N", 1], ["C"]], [["T"]]], "sub_thread": True},
+    {"op": "window_toc", "scripts": [[["N", 1], ["C"]], [["T"]]], "sub_thread": True},
+    {"op": "buffer_time", "scripts": [[["N", 1], ["C"]], [["T"]]], "sub_thread": True},
     {"op": "buffer_time", "scripts": [[["N", 1], ["E", "x"]], [["T"]]]},
 ]
 FIXED3 = [
@@ -505,15 +511,15 @@ def cases(rng, tier):
     n = fw.tier_scale(tier, 300, 4000)
     base_steps = {}
     for i in range(n):
-        sc = dict(rng.choice(FIXED + FIXED3)) if rng.random() < 0.3 else gen_scenario(rng)
+        sc = dict(rng.choice(FIXED + FIXED3 + FIXED_SUB * 2)) if rng.random() < 0.3 else gen_scenario(rng)
         k = fw.key(sc)
         if k not in base_steps:
             base_steps[k] = C.run_threads(dict(sc, first=0, pre=[]))["steps"]
         S = max(2, base_steps[k])
-        nt = len(sc["scripts"])
+        nt = len(sc["scripts"]) + (1 if sc.get("sub_thread") else 0)
         npre = rng.choice([0, 1, 2, 2, 2, 3])
         steps = sorted(rng.sample(range(S), min(npre, S)))
-        sc["first"] = rng.randrange(nt)
+        sc["first"] = nt - 1 if sc.get("sub_thread") else rng.randrange(nt)
         sc["pre"] = [[s, rng.randrange(nt)] for s in steps]
         yield sc
     # the merge_all model itself (atomic group.add outside the lock), handler by handler, vs the real operator
@@ -565,7 +571,7 @@ def explore_batch(batch):
     Runs every schedule of the batch and all its deeper children (a level is skipped when its entry is absent)."""
     sc, first = batch["sc"], batch["first"]
     allow = batch.get("allow", [])
-    n = len(sc["scripts"])
+    n = len(sc["scripts"]) + (1 if sc.get("sub_thread") else 0)
     st = {"runs": 0, "hang": 0, "nontrivial": 0}
     bad = []
 
@@ -605,8 +611,8 @@ def plan(scenarios, allow, batch_runs=300, cap=None):
     batches = []
     info = []
     for sc in scenarios:
-        n = len(sc["scripts"])
-        for first in range(n):
+        n = len(sc["scripts"]) + (1 if sc.get("sub_thread") else 0)
+        for first in ([n - 1] if sc.get("sub_thread") else range(n)):
             r0 = C.run_threads(dict(sc, first=first, pre=[]))
             S = len(r0["choices"])
             l1 = list(tc.children([], r0["choices"], n))
@@ -645,7 +651,9 @@ def extra(rng, tier):
         allow2, allow3 = ["all", ["cb", "H"]], ["all"]
     b2, i2 = plan(FIXED + gen2, allow2, cap=2000 if quick else 200000)
     b3, i3 = plan(FIXED3 + gen3, allow3, cap=2000 if quick else 200000)
-    batches = b2 + b3
+    b4, i4 = plan(FIXED_SUB, [["cb", "H", "lock"]] if quick else ["all"], cap=4000 if quick else 200000)
+    batches = b2 + b3 + b4
+    i3 = i3 + i4
     res = fw.pmap("props.C43", "explore_batch", batches, chunk=1)
     failures = []
     runs = hang = nontriv = 0
@@ -662,7 +670,7 @@ def extra(rng, tier):
     if hang:
         raise RuntimeError(f"{hang} controller runs hit the wall-clock watchdog twice (harness hang)")
     cov = {"search_schedules": runs, "search_schedules_with_preemption": nontriv, "search_per_op": per_op,
-           "search_scenarios": len(FIXED) + len(gen2) + len(FIXED3) + len(gen3),
+           "search_scenarios": len(FIXED) + len(gen2) + len(FIXED3) + len(gen3) + len(FIXED_SUB),
            "search_rule": ("every start order x every single preemption at every yield point (line of the operator's files, "
                            "of synchronized(), of AutoDetachObserver, inside the subscriber's callbacks, between handlers) x "
                            + ("a second preemption at every coarse yield point (callback / observer / lock wrapper / handler boundary) "
